@@ -184,6 +184,6 @@ def cases(tier):
     return cs
 
 ASSUMPTIONS = ["ASSUMED (not in /repo): migen's AsyncFIFO / AsyncFIFOBuffered (Gray pointers), PulseSynchronizer and MultiReg deliver words exactly once and in order for every edge interleaving; under this the structural contracts give the stream part of C05 for the LiteX wrappers",
-               "BusSynchronizer: BOUNDED model checking only (depth and drift ratio stated per obligation); metastability = each bit of a first synchroniser flop resolves to the old or new source value when both clocks tick in the same step; the unbounded proof was not attempted",
+               "BusSynchronizer: the bounded model checking of this module (depth and drift ratio stated per obligation) is kept as a cross-check beside the UNBOUNDED inductive proof over the same two-clock product model in contracts/C05_bussync_proof.py (metastability = each bit of a first synchroniser flop resolves to the old or new source value when both clocks tick in the same step)",
                "NOT decided: unbounded relative drift / per-bit metastability of the Gray-pointer FIFO itself, stream.Monitor pulse synchronisers, UART FIFOs across domains, 'after the input has been stable long enough the output reflects it' (liveness)",
                "contract-based deductive verification reaches only the constructors' structural postconditions and the same-domain crossing here; the level of this check is 'other'"]
